@@ -374,7 +374,7 @@ def _rnd(rng, shape, scale=1.0):
     return np.array([rng.gauss(0, scale) for _ in range(int(np.prod(shape)))]).reshape(shape)
 
 
-def make_logqp_step(method, sde_type, noise_type, d=1, m=1, options=None, seed=11):
+def make_logqp_step(method, sde_type, noise_type, d=1, m=1, options=None, seed=11, batch=1, mark_stages=True):
     """one step of `method` on SDELogqp(sde): state (B, d+1), the last channel is the running log-ratio"""
     from torchsde._core.base_sde import SDELogqp
     m_eff = d if noise_type == 'diagonal' else m
@@ -386,11 +386,11 @@ def make_logqp_step(method, sde_type, noise_type, d=1, m=1, options=None, seed=1
 
     def fn(B):
         t0, t1 = B.ts('t0'), B.ts('t1')
-        y0 = B.x('y0', (1, d))
-        l0 = B.x('l0', (1, 1))
+        y0 = B.x('y0', (batch, d))
+        l0 = B.x('l0', (batch, 1))
         user = UserSDE(B, noise_type, sde_type, d, m_eff, base_polys=base)
         lq = SDELogqp(user)
-        if B.sym:
+        if B.sym and mark_stages:
             # give every evaluation of the log-ratio drift channel its own Lean definition (`…_flq`, `…_flq_1`, …)
             from .sym import cut
 
@@ -403,9 +403,9 @@ def make_logqp_step(method, sde_type, noise_type, d=1, m=1, options=None, seed=1
             lq.f = lambda t, y: mark(of(t, y))
             lq.f_and_g = lambda t, y: (lambda r: (mark(r[0]), r[1]))(ofg(t, y))
         sde = ForwardSDE(lq)
-        W = B.x('dW', (1, mb))
-        U = B.x('U', (1, mb)) if levy != 'none' else None
-        A = B.x('A', (1, mb, mb)) if levy in ('davie', 'foster') else None
+        W = B.x('dW', (batch, mb))
+        U = B.x('U', (batch, mb)) if levy != 'none' else None
+        A = B.x('A', (batch, mb, mb)) if levy in ('davie', 'foster') else None
         bm = StubBM(W, U, A, levy)
         cls = methods.select(method, sde_type)
         solver = cls(sde=sde, bm=bm, dt=0.1, adaptive=False, rtol=1e-3, atol=1e-3, dt_min=1e-5, options=dict(options or {}))
@@ -416,11 +416,11 @@ def make_logqp_step(method, sde_type, noise_type, d=1, m=1, options=None, seed=1
     def sample(rng):
         t0 = rng.uniform(0.0, 1.0)
         h = rng.uniform(0.01, 0.3)
-        v = dict(t0=t0, t1=t0 + h, y0=_rnd(rng, (1, d)), l0=_rnd(rng, (1, 1)), dW=_rnd(rng, (1, mb), h ** 0.5))
+        v = dict(t0=t0, t1=t0 + h, y0=_rnd(rng, (batch, d)), l0=_rnd(rng, (batch, 1)), dW=_rnd(rng, (batch, mb), h ** 0.5))
         if levy != 'none':
-            v['U'] = _rnd(rng, (1, mb), h ** 1.5)
+            v['U'] = _rnd(rng, (batch, mb), h ** 1.5)
         if levy in ('davie', 'foster'):
-            a = _rnd(rng, (1, mb, mb), h)
+            a = _rnd(rng, (batch, mb, mb), h)
             v['A'] = a - np.swapaxes(a, 1, 2)
         return v
 
